@@ -968,10 +968,8 @@ impl BRC20ProgEngine {
         if current_block_height - latest_valid_block_number > MAX_REORG_HISTORY_SIZE {
             return Err("Latest valid block number is too far behind current block height".into());
         }
-        if latest_valid_block_number == current_block_height {
-            return Ok(());
-        }
-
+        // A reorg to the current height is not skipped: after a crash in the middle of a commit or
+        // reorg the tables can be ahead of the block index, and this is the call that repairs them
         self.db.write_fn(|db| db.reorg(latest_valid_block_number))
     }
 
